@@ -65,6 +65,7 @@ def cases(tier, rng):
             # NumPy-typed / float-typed draw counts, caller writing into the returned arrays, queries, reset, rest
             for _ in range(2 if quick else 8):
                 yield {'k': 'gen', 'fs': fs, 'cfg': cfg, 'ops': sc.kinds_history(cfg, fs, rng)}
+                yield {'k': 'gen', 'fs': fs, 'cfg': cfg, 'ops': sc.narrow_history(rng)}
     # fragment functions called directly
     for fs in FS:
         for i in range(110 if quick else 2500):
@@ -169,6 +170,7 @@ def cases(tier, rng):
                 yield {'k': 'gen', 'fs': fs, 'cfg': cfg, 'ops': ops[:2] + [['query'], ['reset']] + ops}
             for _ in range(3 if quick else 20):
                 yield {'k': 'gen', 'fs': fs, 'cfg': cfg, 'ops': sc.kinds_history(cfg, fs, rng)}
+                yield {'k': 'gen', 'fs': fs, 'cfg': cfg, 'ops': sc.narrow_history(rng)}
                 ops = []
                 for _ in range(rng.randint(2, 6)):
                     ops.append(['reset'] if rng.random() < 0.12 else ['next', rng.choice([1, 2, 7, rng.randint(0, 30)])])
